@@ -11,7 +11,7 @@
 From Coq Require Import ZArith List Bool.
 From Centro Require Import Base.Sx Model.Hull Spec.HullSpec
   Proofs.HullEmit Proofs.HullGeom Proofs.HullPerm Proofs.HullBatch Proofs.HullTop
-  Proofs.HullSweep Proofs.HullSweep44 Proofs.HullSweep34 Proofs.HullSweep53.
+  Proofs.HullOutline Proofs.HullSweep Proofs.HullSweep44 Proofs.HullSweep34 Proofs.HullSweep53.
 Import ListNotations.
 Open Scope Z_scope.
 
@@ -57,6 +57,13 @@ Theorem C02_outline_keeps_extreme : forall S V v, HullSpec S V -> In v V ->
   ~ (In (fst v - 1, snd v) S /\ In (fst v + 1, snd v) S).
 Proof. exact interior_not_vertex. Qed.
 Print Assumptions C02_outline_keeps_extreme.
+
+(* ... and for the modelled cpmorphology.convex_hull: a hull polygon of ALL pixels of label l is a
+   hull polygon of the outline pixels handed to the kernel (no vertex is lost by the pre-filter) *)
+Theorem C02_outline_prefilter_sound : forall im l V, 0 < l ->
+  HullSpec (pts_of (all_ijv im) l) V -> HullSpec (pts_of (outline_ijv im) l) V.
+Proof. exact outline_prefilter_sound. Qed.
+Print Assumptions C02_outline_prefilter_sound.
 
 (* np.argsort(np.argsort(indexes)) inverts the sort permutation *)
 Theorem C02_argsort_inverse : forall xs r, (r < length xs)%nat ->
